@@ -172,7 +172,14 @@ def run(case, tape=None):
             probes['extent_below_process_count'] = 1
         return dict(nontrivial=(P > 1 and n_a2a > 0), probes=probes)
 
-    return execute(ID, P, case['sched'], tape, rank_fn, post)
+    res = execute(ID, P, case['sched'], tape, rank_fn, post)
+    if case.get('underfull') and res['status'] == 'violation' and str(res['kind']).startswith('exception:'):
+        # an extent below the process count is beyond the extreme the property names (extent == process count):
+        # code that refuses such a shape by raising is within its rights; only silently wrong data is judged
+        res.update(status='skip', kind='skip', nontrivial=False,
+                   message='extent below the process count refused: ' + str(res.get('message'))[:200])
+        res['probes'] = dict(res.get('probes') or {}, extent_below_process_count_refused=1)
+    return res
 
 
 def shrink(case):
